@@ -73,6 +73,27 @@ def enum_rules(tree, max_s=2, max_o=2, root=None):
     return rules
 
 
+def enum_related_rules(tree, max_s=1, max_o=1):
+    """Every rule (12 shapes, both filter kinds on either side) in which at least one subject is the same module as, an
+    ancestor of or a descendant of at least one object (the root included). 'sub modules of X should not import X' is the
+    typical member. The statement of C01 is unambiguous there as well: denotations are sets of modules, edge requirements
+    are judged per (subject, object) pair, 'something else' lies outside the subject and outside all objects."""
+    names = sorted(tree)
+    rules = []
+    for ks_n in range(1, max_s + 1):
+        for S in combinations(names, ks_n):
+            for ko_n in range(1, max_o + 1):
+                for O in combinations(names, ko_n):
+                    if not any(M.related(s, o) for s in S for o in O):
+                        continue
+                    for ks in KINDS:
+                        for ko in KINDS:
+                            for v, d, e in SHAPES:
+                                rules.append({"verb": v, "dir": d, "exc": e, "anything": False,
+                                              "subj": {"kind": ks, "names": list(S)}, "obj": {"kind": ko, "names": list(O)}})
+    return rules
+
+
 def enum_so_kinds(tree, max_s=2, max_o=2, root=None):
     out = []
     for S, O in enum_subject_object_sets(tree, max_s, max_o, root):
@@ -192,6 +213,20 @@ def unrelated_rule(draw, tree, max_s=3, max_o=3, same_side_related=True):
 
 
 @st.composite
+def related_rule(draw, tree, max_s=3, max_o=3):
+    """Rule with explicit objects in which some subject is the same module as, an ancestor of or a descendant of some object."""
+    names = list(tree)
+    s0 = draw(st.sampled_from(names))
+    rel = [n for n in names if M.related(n, s0)]
+    o0 = draw(st.sampled_from(rel))
+    S = sorted({s0} | set(draw(st.lists(st.sampled_from(names), max_size=max_s - 1))))
+    O = sorted({o0} | set(draw(st.lists(st.sampled_from(names), max_size=max_o - 1))))
+    v, d, e = draw(st.sampled_from(SHAPES))
+    return {"verb": v, "dir": d, "exc": e, "anything": False,
+            "subj": {"kind": draw(st.sampled_from(KINDS)), "names": S}, "obj": {"kind": draw(st.sampled_from(KINDS)), "names": O}}
+
+
+@st.composite
 def forests(draw, root="q", max_modules=14, extra=("x", "x.y", "x.y.z", "lib", "lib.u")):
     """A tree plus, in a third of the draws, some single-component top-level modules with descendants
     (what an architecture with included external libraries looks like)."""
@@ -268,7 +303,8 @@ def rule_focus(tree, rule) -> set:
 @st.composite
 def rule_cases(draw, root="q", max_modules=14):
     tree = draw(forests(root=root, max_modules=max_modules))
-    rule = draw(unrelated_rule(tree))
+    # a fifth of the rules have a subject that is the same module as / above / below one of the objects
+    rule = draw(related_rule(tree)) if draw(st.integers(0, 4)) == 0 else draw(unrelated_rule(tree))
     imports = draw(import_relation(tree, focus=rule_focus(tree, rule)))
     spec = {"tree": tree, "imports": [list(e) for e in imports], "rule": rule}
     if not rule.get("anything") and draw(st.integers(0, 5)) == 0:
